@@ -71,6 +71,8 @@ finally:
     if os.path.exists(mp):
         try: old = json.load(open(mp))
         except Exception: pass
+    for k, v in old.get("verified", {}).items():
+        meta["verified"].setdefault(k, v)   # e.g. the suite result of an earlier full verification when run with --skip-suite
     if "my_checks" in old and "my_checks" in meta:
         hist = old.get("history", []) + [{"my_checks": old["my_checks"]}]
         meta["history"] = hist[-5:]
